@@ -176,8 +176,10 @@ Qed.
 Lemma tfidf_word_columns_enum_invariant mt nmin nmax (e1 e2 : vmap) docs :
   NoDup (keys e1) -> Permutation (keys e1) (keys e2) ->
   Permutation (tfidf_word_columns o lnf mt nmin nmax (reindex e1) docs)
-              (tfidf_word_columns o lnf mt nmin nmax (reindex e2) docs) /  (forall w, col_of w (tfidf_word_columns o lnf mt nmin nmax (reindex e1) docs)
-             = col_of w (tfidf_word_columns o lnf mt nmin nmax (reindex e2) docs)) /  (forall w c, col_of w (tfidf_word_columns o lnf mt nmin nmax (reindex e1) docs) = Some c ->
+              (tfidf_word_columns o lnf mt nmin nmax (reindex e2) docs) /\
+  (forall w, col_of w (tfidf_word_columns o lnf mt nmin nmax (reindex e1) docs)
+             = col_of w (tfidf_word_columns o lnf mt nmin nmax (reindex e2) docs)) /\
+  (forall w c, col_of w (tfidf_word_columns o lnf mt nmin nmax (reindex e1) docs) = Some c ->
                c = ref_tfidf_column o lnf mt nmin nmax docs w).
 Proof.
   intros HN HP.
@@ -465,6 +467,25 @@ Proof.
   intros H1 H2. cbv zeta. rewrite !fit_ord_enum.
   destruct (fitted_enum_keys o1 o2 s train H1 H2) as [HN HP].
   apply word_columns_enum_invariant; auto.
+Qed.
+
+Lemma fit_ord_vocab_set o1 o2 s train : fair o1 -> fair o2 ->
+  NoDup (snd (fit_ord o1 s train)) /\ Permutation (snd (fit_ord o1 s train)) (snd (fit_ord o2 s train)).
+Proof.
+  intros H1 H2. rewrite !fit_ord_enum. unfold reindex. rewrite !reindex_from_vec.
+  exact (fitted_enum_keys o1 o2 s train H1 H2).
+Qed.
+
+Lemma fit_ord_tfidf_columns_invariant {F} (ops : NumOps F) (lnf : F -> F) mt o1 o2 s train docs :
+  fair o1 -> fair o2 ->
+  let c1 := tfidf_word_columns ops lnf mt (s_nmin s) (s_nmax s) (fit_ord o1 s train) docs in
+  let c2 := tfidf_word_columns ops lnf mt (s_nmin s) (s_nmax s) (fit_ord o2 s train) docs in
+  Permutation c1 c2 /\ (forall w, col_of w c1 = col_of w c2) /\
+  (forall w c, col_of w c1 = Some c -> c = ref_tfidf_column ops lnf mt (s_nmin s) (s_nmax s) docs w).
+Proof.
+  intros H1 H2. cbv zeta. rewrite !fit_ord_enum.
+  destruct (fitted_enum_keys o1 o2 s train H1 H2) as [HN HP].
+  apply tfidf_word_columns_enum_invariant; auto.
 Qed.
 
 (** the identity orders give C17's fit_map: the theorems of C17 about the vocabulary apply to
